@@ -203,3 +203,44 @@ func maxScanOverItems(ph *ssa.Phi, loops []*loopInfo) bool {
 	walk(ph)
 	return found
 }
+
+// endBoundKind classifies a time.Duration value as an upper bound of the cues' ends: "one-cue" when
+// it is (or a helper returns) the EndAt of one designated element, "max-scan" when it is the
+// maximum accumulated over all cues by a loop, "" when it is neither.
+func endBoundKind(p *Prog, v ssa.Value) (string, string) {
+	v = stripAllConv(v)
+	loops := []*loopInfo(nil)
+	if ins, ok := v.(ssa.Instruction); ok && ins.Parent() != nil {
+		loops = loopsOf(ins.Parent())
+	}
+	if c, ok := v.(*ssa.Call); ok {
+		sc := c.Call.StaticCallee()
+		if sc == nil || !p.inScope(sc) || len(sc.Blocks) == 0 {
+			return "", ""
+		}
+		var results []ssa.Value
+		for _, b := range sc.Blocks {
+			if r, ok := b.Instrs[len(b.Instrs)-1].(*ssa.Return); ok && len(r.Results) == 1 {
+				results = append(results, r.Results[0])
+			}
+		}
+		loops = loopsOf(sc)
+		v = nil
+		for _, r := range results {
+			if _, isConst := r.(*ssa.Const); isConst && len(results) > 1 {
+				continue
+			}
+			v = r
+		}
+		if v == nil {
+			return "", ""
+		}
+	}
+	if t, fld, base := loadedField(v); t == "Item" && fld == "EndAt" {
+		return "one-cue", descOf(base) + ".EndAt"
+	}
+	if ph, ok := v.(*ssa.Phi); ok && maxScanOverItems(ph, loops) {
+		return "max-scan", phiName(ph)
+	}
+	return "", ""
+}
